@@ -512,6 +512,16 @@ func (t *tr) stmt(s ast.Stmt) []string {
 		t.pre = append(t.pre, init...)
 		return []string{"S.loop " + c + " " + post + "\n    " + body}
 	case *ast.RangeStmt:
+		if x.Key != nil && t.flat(x.Key) != "_" && x.Value != nil && x.Tok == token.DEFINE {
+			// for i, ch := range chars
+			e := t.expr(x.X)
+			ki := t.lhs(x.Key, true)
+			v := t.lhs(x.Value, true)
+			if vid, ok := x.Value.(*ast.Ident); ok {
+				t.drawn[vid.Name] = true
+			}
+			return []string{"S.rangeIdx " + q(ki) + " " + q(v) + " " + e + "\n    " + t.block(x.Body.List)}
+		}
 		if x.Key != nil && t.flat(x.Key) != "_" || x.Value == nil || x.Tok != token.DEFINE {
 			return t.unknownS(s)
 		}
@@ -699,6 +709,7 @@ func genLang(c *ex.Ctx) {
 		emit(ti, "widgets/textinput/textinput.go", "Model", "m", fn, "ti"+strings.ToUpper(fn[:1])+fn[1:])
 	}
 	emit(ti, "widgets/textinput/textinput.go", "", "m", "isAlphaNumeric", "tiIsAlphaNumeric")
+	emit(ti, "widgets/textinput/textinput.go", "", "m", "widthToCursor", "tiWidthToCursor")
 	// the variable Draw keeps the cursor column in: the left side of its `….Cursor.Col = …` assignments
 	key := "unknown"
 	if m := regexp.MustCompile(`S\.assign "([^"]*\.Cursor\.Col)"`).FindStringSubmatch(drawText); m != nil {
